@@ -90,7 +90,12 @@ STRING_OPTIONS = {"xb": {"extra_builtins": {"helper": "EB"}}}
 # attribute and all have the item (what one render saw of a type must not
 # change how the next one treats another instance)
 S_ROW = '<p>${row.title}-${name}${y()}</p><i tal:content="row.title | \'no\'">x</i>'
-STRINGS = {"row": S_ROW, "xb": S_XB, "usesvar": S_USESVAR, "i18nattr": S_I18NATTR, "err": S_ERR, "ns": S_NS, "gmacro": S_GMACRO, "imp1": S_IMP1, "imp2": S_IMP2, "global": S_GLOBAL, "macro": S_MACRO, "code": S_CODE,
+# a container written as a literal and changed by the template: a fresh
+# object at every evaluation, for every render and thread
+S_MUTLIT = ('<div tal:define="seen []; d {\'k\': 0}"><?python seen.append(name); d[\'k\'] += 1 ?>'
+            '<p>${len(seen)}:${seen[0]}:${d[\'k\']}${y()}</p>'
+            '<i tal:repeat="x [1, 2]" tal:content="x">x</i></div>')
+STRINGS = {"mutlit": S_MUTLIT, "row": S_ROW, "xb": S_XB, "usesvar": S_USESVAR, "i18nattr": S_I18NATTR, "err": S_ERR, "ns": S_NS, "gmacro": S_GMACRO, "imp1": S_IMP1, "imp2": S_IMP2, "global": S_GLOBAL, "macro": S_MACRO, "code": S_CODE,
            "i18n": S_I18N, "nested": S_NESTED}
 
 F_LIB = (
